@@ -1,6 +1,9 @@
 from .. import types as Ty
 from ..contract import Contract, Loop
 
+from ..engine import ObjT
+
+CounterT = ObjT("Counter", {"n": Ty.Int})
 D = Ty.Map(Ty.Key, Ty.Set(Ty.Int))
 M = "vt.pyvc.unit.alias_fns:"
 KEEP = "keys(d) == old(keys(d))"
@@ -52,4 +55,10 @@ CONTRACTS = [
     c("pick", "ok", params={"flag": Ty.Bool, "perm": Ty.Opt(Ty.List(Ty.Int))}, returns=Ty.Int,
       ensures=["(result == 1) == flag", "(result == 2) == (not flag and perm is not None and len(unopt(perm)) > 0)"]),
     c("pick", "fail", variant="wrong", params={"flag": Ty.Bool, "perm": Ty.Opt(Ty.List(Ty.Int))}, returns=Ty.Int, ensures=["implies(perm is not None, result != 3)"]),
+    # a loop that calls a contracted method: what the callee's `modifies` names is havoced at the loop head
+    c("Counter.bump", "ok", self_type=CounterT, params={}, returns=Ty.NoneT, modifies=["self.n"], ensures=["self.n == old(self.n) + 1"]),
+    c("Counter.run", "ok", self_type=CounterT, params={"k": Ty.Int}, requires=["k >= 0"], returns=Ty.Int, modifies=["self.n"], nloops=1,
+      loops={0: Loop(pos="t", inv=["self.n == old(self.n) + t"])}, ensures=["result == old(self.n) + k"]),
+    c("Counter.run", "fail", variant="wrong", self_type=CounterT, params={"k": Ty.Int}, requires=["k >= 0"], returns=Ty.Int, modifies=["self.n"], nloops=1,
+      loops={0: Loop(pos="t", inv=["True"])}, ensures=["result == old(self.n)"]),
 ]
